@@ -12,6 +12,7 @@ import (
 	"net/http/httptest"
 	"os"
 	"regexp"
+	"runtime/debug"
 	"strconv"
 	"strings"
 	"sync"
@@ -168,6 +169,9 @@ func doLive(method, url string) (res httpRes) {
 	rec := httptest.NewRecorder()
 	defer func() {
 		if r := recover(); r != nil {
+			if os.Getenv("VERIF_TRACE") != "" {
+				fmt.Fprintf(os.Stderr, "panic: %v\n%s\n", r, debug.Stack())
+			}
 			res = httpRes{panicked: panicKind(r)}
 		}
 	}()
@@ -185,6 +189,7 @@ type segInfo struct {
 	sampleSHA string // sha256 over the concatenated sample payloads
 	hasStyp   bool
 	emsgs     int
+	fragGap   string // "" or: fragment i does not start where fragment i-1 ends
 	err       error
 }
 
@@ -209,6 +214,9 @@ func parseMediaSegment(data []byte, trex *mp4.TrexBox) segInfo {
 			if err != nil {
 				si.err = err
 				return si
+			}
+			if n := len(si.tfdts); n > 1 && si.fragGap == "" && si.tfdts[n-1] != si.tfdts[0]+si.totalDur {
+				si.fragGap = fmt.Sprintf("fragment %d has tfdt %d, the fragments before it end at %d", n-1, si.tfdts[n-1], si.tfdts[0]+si.totalDur)
 			}
 			for _, fs := range fss {
 				si.totalDur += uint64(fs.Dur)
@@ -338,6 +346,9 @@ func execSeg(a []string) string {
 	si := parseMediaSegment(res.body, rf.trex)
 	if si.err != nil || len(si.seqs) == 0 {
 		return "200 unparsable"
+	}
+	if si.fragGap != "" {
+		return "200 fragments-not-contiguous: " + si.fragGap
 	}
 	origS := "?"
 	if strings.HasPrefix(vr.Codecs, "stpp") {
